@@ -49,7 +49,9 @@ func Rep3(all []N3) []N3 {
 func tr2(c N2, x, y float64) N2 {
 	inv := trans3(x, y).inverse()
 	n := wrap2(c, "Transform2D[Translate("+g(x)+","+g(y)+")]", "Transform2D", RefValue, c.Exact, c.Lip,
-		func(s sdf.SDF2) (sdf.SDF2, error) { return sdf.Transform2D(s, sdf.Translate2d(v2.Vec{X: x, Y: y})), nil },
+		func(s sdf.SDF2) (sdf.SDF2, error) {
+			return sdf.Transform2D(s, sdf.Translate2d(v2.Vec{X: x, Y: y})), nil
+		},
 		func(f Ev2, _ sdf.SDF2) Ev2 { return func(p v2.Vec) float64 { return f(inv.apply(p)) } })
 	n.Depth = c.Depth // positioning is part of the operand, not a level of the tree
 	return n
